@@ -250,8 +250,19 @@ fn gen_cell(src: &mut Src, st: &MStack, name: &str, lower: &[MCellT], max_size: 
         if lc.size.0 % ix != 0 || lc.size.1 % iy != 0 {
             continue;
         }
-        let x0 = ix * src.i64_in(0, (size.0 - lc.size.0) / ix);
-        let y0 = iy * src.i64_in(0, (size.1 - lc.size.1) / iy);
+        let mut x0 = ix * src.i64_in(0, (size.0 - lc.size.0) / ix);
+        let mut y0 = iy * src.i64_in(0, (size.1 - lc.size.1) / iy);
+        // rows of cells standing edge to edge are the normal case: one time in three the new instance is
+        // put right beside (or right above) the previous one, if it fits there
+        if let Some(prev) = blocked.last() {
+            if src.prob(1, 3) {
+                let (ax, ay) = if src.bool() { (prev.2, prev.1) } else { (prev.0, prev.3) };
+                if ax % ix == 0 && ay % iy == 0 && ax + lc.size.0 <= size.0 && ay + lc.size.1 <= size.1 {
+                    x0 = ax;
+                    y0 = ay;
+                }
+            }
+        }
         let bb = (x0, y0, x0 + lc.size.0, y0 + lc.size.1);
         if blocked.iter().any(|b| bb.0 < b.2 && b.0 < bb.2 && bb.1 < b.3 && b.1 < bb.3) {
             continue;
